@@ -379,6 +379,21 @@ def counter_vars(fn, k):
     return out or {'L:len'}
 
 
+def queue_sites(db, rep):
+    """qmail-queue main explored once: (rule, instance) -> (ok, where, detail, path); shared with C02, C03, C07, C16"""
+    prog = db.program('qmail-queue')
+    main = prog.fn('main', 'qmail-queue.c')
+    H = QueueHooks({})
+    H.precise = frozenset(counter_vars(main, macro_const(db, 'qmail-queue.c', 'ADDR')))
+    eng = Engine(db, prog, H)
+    eng.run(main)
+    rep.count_states(eng.states, eng.transitions)
+    if H.commits == 0:
+        raise AnalysisBroken('no link(intd/..,todo/..) commit found in qmail-queue main: anchor vanished')
+    return dict(H.seen_sites)
+
+
+
 def run(ctx):
     db, rep = ctx.db, ctx.report
     prog = db.program('qmail-queue')
@@ -462,6 +477,12 @@ def run(ctx):
         bad = reach & {'unlink', 'ftruncate', 'cleanup', 'truncate', 'rename'}
         r.check(not bad, '%s-handler-%s-does-not-clean-up' % ('alarm' if how == 'sig_alarmcatch' else 'signal', h), '%s:%d' % (hf.unit, hf.line),
                 'handler (installed by %s) reaches %s: a signal arriving after the commit would destroy an accepted message (intd/<n> and todo/<n> are one file)' % (how, sorted(bad)))
+
+    # --- only leftovers of failed attempts are collected (daemon side)
+    from rules import qsend
+    rg = rep.rule('C01.10-collector', 'R-GUARD', 'qmail-send cleanup_do: a mess file is handed to qmail-clean only if it is older than OSSIFIED and has neither an info nor a todo entry (an accepted message always has one of them)')
+    qsend.attach(rg, qsend.analyse_cleanup_do(db, rep), prefixes=['gc:'])
+    rg.expect_min(2)
 
     # --- R-CONST DEATH < OSSIFIED
     r = rules['C01.6-timer']
